@@ -3,6 +3,7 @@ import CssVerif.Lemmas.TokComment
 import CssVerif.Lemmas.TokStrItems
 import CssVerif.Lemmas.TokIdentDash
 import CssVerif.Lemmas.TokUriQ
+import CssVerif.Lemmas.TokIdentU
 /-!
 # Lexeme separation for all token classes (`Lex2`, `render2`, `expectedAll`)
 -/
@@ -64,6 +65,7 @@ inductive Lex2 where
   | strI (q : Nat) (its : List SItem)      -- STRING with escapes / line continuations: quote, items, quote
   | identD (n c : Nat) (cs : Cps)          -- IDENT that starts with one or two hyphens
   | uriQ (u r l : Nat) (w1 : Cps) (q : Nat) (its : List SItem) (w2 : Cps)   -- URI, quoted: url( ws? string ws? )
+  | identU (u : Nat) (cs : Cps)            -- IDENT that starts with `u` / `U`
 
 def Lex2.text : Lex2 → Cps
   | .old t => t.text
@@ -75,6 +77,7 @@ def Lex2.text : Lex2 → Cps
   | .cdc => cdcText
   | .strI q its => q :: flat its ++ [q]
   | .identD n c cs => dashes n ++ c :: cs
+  | .identU u cs => u :: cs
   | .uriQ u r l w1 q its w2 => u :: r :: l :: 40 :: (w1 ++ (q :: (flat its ++ q :: (w2 ++ [41]))))
 
 def Lex2.typ : Lex2 → String
@@ -87,6 +90,7 @@ def Lex2.typ : Lex2 → String
   | .cdc => "CDC"
   | .strI _ _ => "STRING"
   | .identD _ _ _ => "IDENT"
+  | .identU _ _ => "IDENT"
   | .uriQ _ _ _ _ _ _ _ => "URI"
 
 /-- the expected token value: the text itself, except for strings with escapes (one-pass decoding) -/
@@ -105,6 +109,7 @@ def Lex2.WF : Lex2 → Prop
   | .cdc => True
   | .strI q its => (q = 34 ∨ q = 39) ∧ ∀ i ∈ its, i.WF q
   | .identD n c cs => (n = 1 ∨ n = 2) ∧ inR nameStart c = true ∧ ∀ x ∈ cs, inR identRest x = true
+  | .identU u cs => IsU u ∧ ∀ x ∈ cs, inR identRest x = true
   | .uriQ u r l w1 q its w2 => IsU u ∧ IsR r ∧ IsL l ∧ (∀ x ∈ w1, isWsC x = true) ∧ (q = 34 ∨ q = 39) ∧
       (∀ i ∈ its, i.WF q) ∧ ∀ x ∈ w2, isWsC x = true
 
@@ -257,6 +262,17 @@ theorem lex2_step (doC : Bool) (t : Lex2) (h : t.WF) (stop : Cps) (hs : Sep stop
     · have hu' : unescTypes.contains "URI" = true := by decide
       have hc : cleanTypes.contains "URI" = true := by decide
       simp only [valueOf, hu', hc, if_true, subS_eq_stringValue, Lex2.value]
+  | identU u cs =>
+    obtain ⟨hu, hcs⟩ := h
+    apply loop_step2 doC fuel (u :: cs) stop line col "IDENT" (by simp)
+    · intro c t e; simp only [List.cons.injEq] at e; obtain ⟨rfl, _⟩ := e
+      rcases hu with rfl | rfl <;> decide
+    · exact scan_ident_u doC u hu cs stop hcs hs
+    · apply valueOf_ident
+      intro x hx
+      rcases List.mem_cons.mp hx with rfl | hx
+      · rcases hu with rfl | rfl <;> decide
+      · exact ne92_of_inR identRest (by decide) _ (hcs x hx)
   | identD n c cs =>
     obtain ⟨hn, hc, hcs⟩ := h
     have hd45 : ∀ x ∈ dashes n, x = 45 := by
@@ -302,6 +318,9 @@ theorem lex2_head (t : Lex2) (h : t.WF) : ∃ c w, t.text = c :: w ∧ inR lexHe
     rcases h.1 with rfl | rfl <;> decide
   | uriQ u r l w1 q its w2 =>
     refine ⟨u, r :: l :: 40 :: (w1 ++ (q :: (flat its ++ q :: (w2 ++ [41])))), rfl, ?_⟩
+    rcases h.1 with rfl | rfl <;> decide
+  | identU u cs =>
+    refine ⟨u, cs, rfl, ?_⟩
     rcases h.1 with rfl | rfl <;> decide
   | identD n c cs =>
     rcases h.1 with rfl | rfl
